@@ -35,9 +35,11 @@ def cases(tier):
             for ops in ('21', '22', '23', '24', '31', '32', '33'):
                 add(cfg, ops, x=5)
             add(cfg, '25', d=20); add(cfg, '25', d=1); add(cfg, '26', d2=0); add(cfg, '26', d2=PAGE[cfg] + 1)
-        # three step histories, page 8
-        for ops in ('251', '255', '256', '257', '235', '236', '253', '385', '389'):
-            add(1, ops, x=5, d=9, d2=20)
+    only = os.environ.get('VF_C39_ONLY')          # debugging aid: one extra-tier case "cfg:ops:xlen:dlen:dlen2"
+    if only:
+        c, o, x, d, d2 = only.split(':')
+        cs = []
+        add(int(c), o, x=int(x), d=int(d), d2=int(d2))
     maxk = os.environ.get('VF_C39_MAXK')          # debugging aid: restrict the history length
     if maxk:
         cs = [c for c in cs if c['K'] <= int(maxk)]
@@ -50,15 +52,15 @@ PROPERTY = Property(
              unwindset=['vf_bl_write_data.%d:5' % i for i in range(4)],
              description='real bootloader controller under symbolic histories of control point writes, data writes, progress / response / '
                          'data-indication deliveries; the flash handler is the recording environment that asserts every touched range',
-             bounds='histories of up to 2 (quick) / 3 (thorough) operations from construction; the shape of every step is a case parameter: control point write of '
+             bounds='histories of up to 2 operations from construction; the shape of every step is a case parameter: control point write of '
                     '1, 9, 17 or XLEN (0..20) bytes (symbolic opcode and parameters, exact-size objects), data write of DLEN or DLEN2 bytes (<= 20, all bytes symbolic), progress, '
                     'data indication delivery, control point notification delivery; quick: single writes (lengths 0,1,2,8,9,10,16,17,18,20) for CFG0 and lengths 1,9,17 for all configurations, four 2-step histories; '
-                    'thorough: single writes of every length 0..20 for the 4 configurations, 2-step histories (control point write followed by control point or data write) for the 4 configurations, nine 3-step histories for CFG1 (page 8)')],
+                    'thorough: single writes of every length 0..20 for the 4 configurations, 2-step histories (control point write followed by control point or data write) for the 4 configurations')],
     functions=['bootloader::details::controller::bootloader_write_control_point', 'controller::bootloader_write_data', 'controller::find_next_buffer',
                'controller::bootloader_read_control_point', 'controller::bootloader_read_data', 'controller::bootloader_progress_data', 'controller::read_address',
                'details::flash_buffer::set_start_address / write_data / flush / free', 'white_list<memory_region<...>...>::acceptable'],
     bounds='4 configurations (2 regions/page 16, 1 region/page 8, region at the end of the address space/page 32, unaligned region/page 16); '
-           'histories up to 3 operations; value sizes 0..20; 64 bit addresses',
+           'histories up to 2 operations; value sizes 0..20; 64 bit addresses',
     assumptions=['the user handler signals end_flash() (progress) at most once per start_flash() call',
                  'data indications / control point notifications are delivered only when the controller requested them; the response of an accepted control point write is read immediately after the write',
                  'memory content and the checksum functions are uninterpreted functions (mem(addr), crc(old, byte), crc(addr), crc(addr, size)); memory not flashed in the history keeps its content',
@@ -70,7 +72,11 @@ PROPERTY = Property(
                 'written values are exact-size objects so any read beyond them fails a pointer check inside the real code; a ghost model of the flash session '
                 '(start address, received bytes, checksum chain over uninterpreted crc) is compared with the pages handed to start_flash and with the checksums announced '
                 'in Start Flash / Flush / Get CRC responses and progress notifications',
-    outside=['histories longer than 3 operations (2 in the quick tier) and 3-step histories other than the nine listed shapes for CFG1: the solver time of a data write that crosses pages grows steeply with the history length (one 3-step case with 20 byte data and page size 16 did not finish in 265 CPU seconds); write sizes above 20 bytes', 'the GATT plumbing around the controller (see C01/C06/C10)',
+    outside=['histories longer than 2 operations: 3-step histories (Start Flash, data, Flush/progress/second data; Get CRC or Read inside flash mode) were run by hand '
+             '(25 case quick list on the original tree: all conclusive, 1-6 CPU minutes each) but are not part of the tiers: after the last harness change (page bytes '
+             'copied with constant indices, see the comment in vf_bl_env_start_flash) they were not re-validated on the fixed tree inside the time box; '
+             'the Get CRC / Read inside flash mode defect (fix 17a0155) needs 3 steps and is covered only by the hand written replay replays/C39-c39_bl-manual-getcrc-in-flash-mode.replay; '
+             'write sizes above 20 bytes', 'the GATT plumbing around the controller (see C01/C06/C10)',
              'liveness (that all received data is eventually flashed without a Flush)', 'what run(address) starts (Start procedure is not range checked by the statement)',
              'page sizes / region lists other than the four configurations; 32 bit targets'],
 )
